@@ -130,10 +130,25 @@ def _replay_eq(case: dict) -> List[str]:
     return eq_stream.replay_case(case)
 
 
-PROPS["C19"] = {"theorems": [], "run": _run_eq, "replay": _replay_eq,
+PROPS["C19"] = {"theorems": ["C19_rename", "C19_congruence", "C19_same_verdict", "scalarStep_rn", "seqStep_rn",
+                             "ntupleStep_rn", "mapStep_rn", "recordStep_rn", "unionStep_rn", "maybeStep_rn", "knrStep_rn",
+                             "userStep_rn", "contPreds_rn", "runProcs_rn", "gate_tr", "gate_rej"],
+                "modules": ["KodaModel.Properties.C19"],
+                "level_note": "C19_rename: for every validator tree (every kind, any depth, Lazy through the environment), mode, "
+                              "fuel and input, renaming the identities of validator / predicate / processor objects renames "
+                              "them in the result and changes nothing else; C19_congruence: two trees that coincide once "
+                              "identities are renamed (the model's reading of ==: same configuration, same user callbacks) "
+                              "return the same result up to that renaming on every input.  The reading of == itself is tied "
+                              "to the code by the pair stream (real == against same-configuration on every generated pair); "
+                              "pairs that are == through numerically equal parameters of different types (Min(1) / Min(1.0)) "
+                              "are outside the theorem and decided by the input pool only",
+                "run": _run_eq, "replay": _replay_eq,
                 "rule": "pairs (t, independent rebuild of t) and (t, t with one constructor argument changed at one node) "
-                        "for every validator kind; when the real == says equal, both are run on a pool of inputs generated "
-                        "to separate them, in both modes; a pair is non-trivial when an argument was changed"}
+                        "for every validator kind; the real == is compared with the model's same-configuration relation; "
+                        "when the real == says equal, both are run on a pool of inputs generated to separate them, in both "
+                        "modes; per pair, three model runs on one input check C19_rename executably (tree renamed by V.rn, "
+                        "tree decoded from the renamed description, renamed answer of the original); a pair is non-trivial "
+                        "when an argument was changed"}
 
 
 def _run_render(pid: str, tier: str, seed: int, spec: dict, scale: float = 1.0, salt: str = "") -> dict:
